@@ -104,3 +104,54 @@ def apply_transform(root: str, name: str) -> None:
                     s = fh.read()
                 with open(p, "w", encoding="utf-8") as fh:
                     fh.write(fn(s))
+
+
+class _NegateIf(ast.NodeTransformer):
+    """if t: A else: B  ->  if not t: B else: A   (only plain if/else, never an elif chain)."""
+
+    def visit_If(self, node: ast.If):
+        self.generic_visit(node)
+        if node.orelse and not (len(node.orelse) == 1 and isinstance(node.orelse[0], ast.If)):
+            return ast.If(test=ast.UnaryOp(op=ast.Not(), operand=node.test), body=node.orelse, orelse=node.body)
+        return node
+
+
+def negate_if_module(src: str) -> str:
+    tree = _NegateIf().visit(ast.parse(src))
+    ast.fix_missing_locations(tree)
+    return ast.unparse(tree) + "\n"
+
+
+class _ReturnTemp(ast.NodeTransformer):
+    """return <call>  ->  _rv_tmp = <call>; return _rv_tmp   (not inside generators' bare returns, not in lambdas)."""
+
+    def visit_FunctionDef(self, node: ast.FunctionDef):
+        self.generic_visit(node)
+        node.body = self._rewrite(node.body)
+        return node
+
+    def _rewrite(self, body):
+        out = []
+        for st in body:
+            for fld in ("body", "orelse", "finalbody"):
+                sub = getattr(st, fld, None)
+                if isinstance(sub, list) and sub and isinstance(sub[0], ast.stmt) and not isinstance(st, (ast.FunctionDef, ast.AsyncFunctionDef, ast.ClassDef)):
+                    setattr(st, fld, self._rewrite(sub))
+            for h in getattr(st, "handlers", []):
+                h.body = self._rewrite(h.body)
+            if isinstance(st, ast.Return) and isinstance(st.value, ast.Call):
+                out.append(ast.Assign(targets=[ast.Name(id="_rv_tmp", ctx=ast.Store())], value=st.value))
+                out.append(ast.Return(value=ast.Name(id="_rv_tmp", ctx=ast.Load())))
+            else:
+                out.append(st)
+        return out
+
+
+def return_temp_module(src: str) -> str:
+    tree = _ReturnTemp().visit(ast.parse(src))
+    ast.fix_missing_locations(tree)
+    return ast.unparse(tree) + "\n"
+
+
+TRANSFORMS["negate_if"] = negate_if_module
+TRANSFORMS["return_temp"] = return_temp_module
